@@ -21,7 +21,7 @@ CONSTANTS Fams,      \* families to enumerate (set of strings)
           Seed,      \* selects the third of the triples / the deep sample / the extra run
           Mod,       \* 1: every operator triple; 3: those with (i+j+k+Seed) % 3 = 0
           NDeep,     \* number of sampled operator sequences of length 4 (family deep)
-          PMod       \* family prim3: the operator triples x place x primary with (i+j+k+q+s+Seed) % PMod = 0
+          PMod       \* family prim3: a selection of operator triples x place x primary: one in PMod
 
 BinOpSeq == <<"*", "/", "%", "+", "-", "==", "!=", "<", "<=", ">", ">=", "~", "!~", "is",
               "&&", "||", "=", "+=", "-=", "*=", "/=">>
@@ -153,7 +153,7 @@ DescsOf(fam, i1) ==
                                {WithBase(d, q, PrimSeq[s]) : q \in PrePositions(d), s \in 1..NPrim} : j \in 1..NB}
     [] fam = "prim3" -> {WithBase(MkBin(<<BinOpSeq[i1], BinOpSeq[x[1]], BinOpSeq[x[2]]>>), x[3], PrimSeq[x[4]]) :
                            x \in {y \in (1..NB) \X (1..NB) \X (1..4) \X (1..NPrim) :
-                                   /\ (i1 + y[1] + y[2] + y[3] + y[4] + (Seed % 1000)) % PMod = 0
+                                   /\ (i1 * 31 + y[1] * 17 + y[2] * 7 + y[3] * 3 + y[4] + (Seed % 1000)) % PMod = 0
                                    /\ ~IsTyPos(MkBin(<<BinOpSeq[i1], BinOpSeq[y[1]], BinOpSeq[y[2]]>>), y[3])}}
     [] fam = "preprim" -> {WithPre(WithBase(MkBin(<<>>), 1, PrimSeq[s]), 1, <<PreSeq[i1]>>) : s \in 1..NPrim}
                           \cup UNION {LET d == MkBin(<<BinOpSeq[j]>>) IN
@@ -486,7 +486,11 @@ CaseVec(t, cseq, np, nc, table, j) ==
       firstDisc(x) == fd[x]
       picks == {firstDisc(x) : x \in others} \ {0}
       extra == (((Seed % 1000) * 31 + Len(rt) * 7 + j) % nc) + 1
-      runs == SetToSeq(picks \cup {extra})
+      \* where the reference evaluation cannot tell t from some other grouping (operands without a
+      \* reference value: `$`, containers, match), two more assignments for the implementation to try
+      more == IF \E x \in others : fd[x] = 0
+              THEN {((extra + (nc \div 3)) % nc) + 1, ((extra + 2 * (nc \div 3)) % nc) + 1} ELSE {}
+      runs == SetToSeq(picks \cup {extra} \cup more)
   IN [text |-> Texts(rt),
       full |-> Texts(FullParen(t)),
       exp |-> Sexpr(t),
